@@ -28,7 +28,7 @@ CHECKS = {
             'RenderTable.errors and the app pushes the bookkeeping error into it; R4c partial deltas of a rejected security never reach a gains or '
             'summary calculator; R4d registered affiliates never acquire a cost base or gain; R4e the post-split balance tested for integrality has no factor that is already a rounded quotient; R4f no bookkeeping product or quotient uses the pre-divided factor of a split ratio; R4g output files are opened truncating; R4h no error exit of the application is control-dependent (implicit flows included) on RenderTable.errors. ' + PARTIAL % 'C04'),
     'C05': ('other', 'abstract interpretation in a sign lattice (per generic instantiation) of every ConstrainedDecimal try_from().unwrap() and of every Decimal divisor; def-use rule parser-result -> unwrap; capture-group participation analysis of the constant regular expressions behind every required group access',
-            'R5a each of the ~25 infallibility beliefs `ConstrainedDecimal::try_from(e).unwrap()` is justified by sign algebra including rounding-to-zero, '
+            'R5a each of the ~25 infallibility beliefs `ConstrainedDecimal::try_from(e).unwrap()` is justified by sign algebra including rounding-to-zero and quotients that round to zero (three such sites of the tree are recorded known findings), '
             'per instantiation of the generic wrappers (two sites by reviewed relational argument whose premises are re-checked); R5b no parser result on '
             'non-constant text reaches unwrap/expect, and every compiled regex pattern is constant-derived; R5c no index is bounded only by the length of a different sequence; R5d no assertion demands exact equality of a Decimal expression computed on the spot; R5e every Decimal division / remainder has a divisor that is non-zero by type, by the sign lattice or by a dominating is_zero test; R5f every capture group that is unwrapped or indexed (directly or behind helpers taking the group name) exists and is mandatory in the pattern(s), rebuilt from program constants, that produced the match. ' + PARTIAL % 'C05'),
     'C06': ('other', 'inter-procedural forward data-flow of rounded values to formatting sinks; parameter/field flow closure of the precision flag; field provenance of year keys',
